@@ -553,6 +553,7 @@ func cmdReplay(args []string) {
 		if err := enc.Encode(res); err != nil {
 			os.Exit(2)
 		}
+		w.Flush() // a fatal runtime error in the engine must not lose the results so far
 		if hung {
 			if obsWriter != nil {
 				obsWriter.Flush()
